@@ -19,7 +19,7 @@ OFFLINE_FAILS = {"Test_Proxy_DoRedirects_RestoreOriginalURL", "Test_Proxy_DoRedi
 
 
 def sh(cmd, cwd=None, timeout=3000):
-    p = subprocess.run(cmd, cwd=cwd, env=ENV, stdout=subprocess.PIPE, stderr=subprocess.STDOUT, text=True, timeout=timeout, shell=isinstance(cmd, str))
+    p = subprocess.run(cmd, cwd=cwd, env=ENV, stdout=subprocess.PIPE, stderr=subprocess.STDOUT, text=True, errors="replace", timeout=timeout, shell=isinstance(cmd, str))
     return p.returncode, p.stdout
 
 
